@@ -14,6 +14,7 @@ import (
 	"fmt"
 	"io/ioutil"
 	"sort"
+	"strconv"
 	"strings"
 
 	"git.arvados.org/arvados.git/sdk/go/arvados"
@@ -435,29 +436,16 @@ type c05Viol struct {
 	Code string // machine-readable sub-case, where a classifier needs one
 }
 
-// repl counts the replication of class c. perView=false: the physical model
-// (Σ replication over DISTINCT devices that hold a copy and are not trashed).
-// perView=true: every surviving mount view of such a device is counted on its
-// own – the (wrong) arithmetic that known finding F1 is about; used only by
-// the classifier.
-func (w *c05World) repl(b *c05Block, class string, trashed map[string]bool, perView bool) int {
+// repl counts the replication of class c in the physical model: Σ replication
+// over DISTINCT devices that hold a copy, offer the class and are not trashed.
+func (w *c05World) repl(b *c05Block, class string, trashed map[string]bool) int {
 	n := 0
 	for _, dev := range w.devKeys {
 		if _, has := b.Copies[dev]; !has || trashed[dev] {
 			continue
 		}
-		ms := w.devMounts[dev]
-		if !w.minfo[ms[0]].classes[class] {
-			continue
-		}
-		if !perView {
-			n += w.minfo[ms[0]].m.Repl
-			continue
-		}
-		for _, gi := range ms {
-			if w.survivor[gi] {
-				n += w.minfo[gi].m.Repl
-			}
+		if gi := w.devMounts[dev][0]; w.minfo[gi].classes[class] {
+			n += w.minfo[gi].m.Repl
 		}
 	}
 	return n
@@ -489,17 +477,10 @@ func c05DecodeObj(js string) (map[string]interface{}, error) {
 }
 
 // oracle applies items (i)–(vii) of the design to the output for one block.
-//
-// skip (normally nil) removes the named classes from the desired map before
-// judging; only the classifier for the "desired class that no mount offers"
-// finding uses it, to ask whether anything ELSE is wrong with the output.
-func (w *c05World) oracle(b *c05Block, out *c05Out, skip map[string]bool) ([]c05Viol, *c05Facts) {
+func (w *c05World) oracle(b *c05Block, out *c05Out) ([]c05Viol, *c05Facts) {
 	var v []c05Viol
 	bad := func(item, f string, a ...interface{}) { v = append(v, c05Viol{Item: item, Msg: fmt.Sprintf(f, a...)}) }
 	f := &c05Facts{desired: c05Desired(b), trashedDev: map[string]bool{}, before: map[string]int{}, after: map[string]int{}, copies: len(b.Copies)}
-	for c := range skip {
-		delete(f.desired, c)
-	}
 	for c := range f.desired {
 		f.classes = append(f.classes, c)
 	}
@@ -527,10 +508,13 @@ func (w *c05World) oracle(b *c05Block, out *c05Out, skip map[string]bool) ([]c05
 			bad("vii", "trash on mount %s whose device %s holds no replica", tr.Mount, mi.dev)
 			continue
 		}
-		obj, err := c05DecodeObj(tr.JSON)
-		if err != nil || len(obj) != 3 || obj["locator"] != interface{}(b.Hash) ||
-			fmt.Sprint(obj["block_mtime"]) != fmt.Sprint(mt) || obj["mount_uuid"] != interface{}(tr.Mount) {
-			bad("vii", "trash JSON %s, want locator %s block_mtime %d mount_uuid %s", tr.JSON, b.Hash, mt, tr.Mount)
+		// fast path: the canonical rendering; otherwise compare field by field
+		if tr.JSON != `{"locator":"`+b.Hash+`","block_mtime":`+strconv.FormatInt(mt, 10)+`,"mount_uuid":"`+tr.Mount+`"}` {
+			obj, err := c05DecodeObj(tr.JSON)
+			if err != nil || len(obj) != 3 || obj["locator"] != interface{}(b.Hash) ||
+				fmt.Sprint(obj["block_mtime"]) != fmt.Sprint(mt) || obj["mount_uuid"] != interface{}(tr.Mount) {
+				bad("vii", "trash JSON %s, want locator %s block_mtime %d mount_uuid %s", tr.JSON, b.Hash, mt, tr.Mount)
+			}
 		}
 		if tr.Mtime != mt {
 			bad("vii", "trash mtime %d differs from the replica's mtime %d", tr.Mtime, mt)
@@ -545,8 +529,8 @@ func (w *c05World) oracle(b *c05Block, out *c05Out, skip map[string]bool) ([]c05
 	}
 
 	for _, c := range f.classes {
-		f.before[c] = w.repl(b, c, nil, false)
-		f.after[c] = w.repl(b, c, f.trashedDev, false)
+		f.before[c] = w.repl(b, c, nil)
+		f.after[c] = w.repl(b, c, f.trashedDev)
 		if f.desired[c] > 0 && f.before[c] < f.desired[c] {
 			f.under = append(f.under, c)
 		}
@@ -590,14 +574,16 @@ func (w *c05World) oracle(b *c05Block, out *c05Out, skip map[string]bool) ([]c05
 		if !srcHas {
 			bad("v", "pull source %s has no mount holding the block", pl.From)
 		}
-		obj, err := c05DecodeObj(pl.JSON)
-		okJSON := err == nil && len(obj) == 3 && obj["locator"] == interface{}(b.Hash) && obj["mount_uuid"] == interface{}(pl.To)
-		if okJSON {
-			sv, _ := obj["servers"].([]interface{})
-			okJSON = len(sv) == 1 && sv[0] == interface{}(c05URL(&w.cs.Srvs[si]))
-		}
-		if !okJSON {
-			bad("vii", "pull JSON %s, want locator %s servers [%s] mount_uuid %s", pl.JSON, b.Hash, c05URL(&w.cs.Srvs[si]), pl.To)
+		if url := c05URL(&w.cs.Srvs[si]); pl.JSON != `{"locator":"`+b.Hash+`","servers":["`+url+`"],"mount_uuid":"`+pl.To+`"}` {
+			obj, err := c05DecodeObj(pl.JSON)
+			okJSON := err == nil && len(obj) == 3 && obj["locator"] == interface{}(b.Hash) && obj["mount_uuid"] == interface{}(pl.To)
+			if okJSON {
+				sv, _ := obj["servers"].([]interface{})
+				okJSON = len(sv) == 1 && sv[0] == interface{}(url)
+			}
+			if !okJSON {
+				bad("vii", "pull JSON %s, want locator %s servers [%s] mount_uuid %s", pl.JSON, b.Hash, url, pl.To)
+			}
 		}
 	}
 
@@ -616,10 +602,12 @@ func (w *c05World) oracle(b *c05Block, out *c05Out, skip map[string]bool) ([]c05
 	return v, f
 }
 
-// ---------------------------------------------------------------- classifiers for known findings
+// ---------------------------------------------------------------- classifier for the one known finding
+
+const c05KnownStandIn = "c05-other-server-copy-stands-in-for-class"
 
 // c05SharedCounted reports the devices that hold a copy of the block and are
-// seen through two or more surviving mount views.
+// seen through two or more surviving mount views (label only).
 func (w *c05World) c05SharedCounted(b *c05Block) []string {
 	var out []string
 	for _, dev := range w.devKeys {
@@ -639,16 +627,28 @@ func (w *c05World) c05SharedCounted(b *c05Block) []string {
 	return out
 }
 
-// ---- relaxed counting models used ONLY to classify oracle failures as known findings
+// Known finding c05-other-server-copy-stands-in-for-class (not repaired in
+// /repo): balanceBlock's "distinct servers first" pass skips a class-c copy on
+// a server where another class-c mount is already in use and gives the
+// protection to a copy OUTSIDE class c on another server; the class-c copy is
+// trashed and class c drops below min(desired, existing).
 //
-// perView  (finding c05-shared-device-double-count): every surviving mount
-//          view of a device is counted as a replica of its own (a trash still
-//          removes the whole device).
-// standIn  (finding c05-other-server-copy-stands-in-for-class): for class c,
-//          kept copies on mounts that do NOT offer c, on servers where no
-//          class-c mount is in use (kept copy or pull target), are counted
-//          towards c – provided every trashed class-c copy sits on a server
-//          where another class-c mount is in use.
+// The classifier is a counterfactual re-evaluation of item (iv) only. It
+// matches iff
+//   - the only failed oracle item is (iv), and for every class c that fails it
+//   - (a) every trashed class-c copy sits on a server where another class-c
+//     mount is in use after the changes (a kept class-c copy or a class-c
+//     pull target) – the "same server twice" situation, and
+//   - (b) the kept class-c replication plus the replication of kept copies
+//     outside c that sit on servers where NO class-c mount is in use (the
+//     stand-ins the distinct-server pass can have counted) reaches
+//     min(desired_c, before_c).
+// Everything else – any (i),(ii),(iii),(v),(vi),(vii) failure, a trashed
+// class copy on a server with no other class mount in use, a total that is
+// short even with the stand-ins – is reported as a violation. The finding
+// needs a mount outside class c, so it cannot occur (and nothing is excused)
+// in layouts where every mount offers every desired class, e.g. all
+// default-class layouts.
 
 // classSrvInUse: servers on which the balancer uses a class-c mount after its
 // changes: a kept class-c copy or a class-c pull target. A device seen through
@@ -683,31 +683,25 @@ func (w *c05World) classSrvInUse(b *c05Block, out *c05Out, class string, trashed
 }
 
 // standInRepl: replication of kept copies outside class c on servers where
-// no class-c mount is in use.
-func (w *c05World) standInRepl(b *c05Block, out *c05Out, class string, trashed map[string]bool, perView bool) int {
+// no class-c mount is in use (each device once).
+func (w *c05World) standInRepl(b *c05Block, out *c05Out, class string, trashed map[string]bool) int {
 	use := w.classSrvInUse(b, out, class, trashed, false)
 	n := 0
 	for _, dev := range w.devKeys {
 		if _, has := b.Copies[dev]; !has || trashed[dev] || w.minfo[w.devMounts[dev][0]].classes[class] {
 			continue
 		}
-		counted := false
 		for _, gi := range w.devMounts[dev] {
-			if !w.survivor[gi] || use[w.minfo[gi].srv] {
-				continue
-			}
-			if perView || !counted {
+			if w.survivor[gi] && !use[w.minfo[gi].srv] {
 				n += w.minfo[gi].m.Repl
-				counted = true
+				break
 			}
 		}
 	}
 	return n
 }
 
-// sameServerClassMountInUse: condition (a) of the stand-in finding – every
-// trashed copy of class c shares a server with a class-c mount that is in use
-// (kept copy or pull target).
+// sameServerClassMountInUse: condition (a).
 func (w *c05World) sameServerClassMountInUse(b *c05Block, out *c05Out, class string, trashed map[string]bool) bool {
 	use := w.classSrvInUse(b, out, class, trashed, true)
 	any := false
@@ -730,105 +724,29 @@ func (w *c05World) sameServerClassMountInUse(b *c05Block, out *c05Out, class str
 	return any
 }
 
-// relaxedOK re-evaluates items (iii) and (iv) under the given relaxations.
-func (w *c05World) relaxedOK(b *c05Block, out *c05Out, f *c05Facts, perView, standIn bool) bool {
-	for _, c := range f.classes {
-		before := w.repl(b, c, nil, perView)
-		if len(out.Trashes) > 0 && f.desired[c] > 0 && before < f.desired[c] {
-			return false
-		}
-		after := w.repl(b, c, f.trashedDev, perView)
-		need := c05Min(f.desired[c], before)
-		if after >= need {
-			continue
-		}
-		if !standIn || !w.sameServerClassMountInUse(b, out, c, f.trashedDev) {
-			return false
-		}
-		if after+w.standInRepl(b, out, c, f.trashedDev, perView) < need {
-			return false
-		}
-	}
-	return true
-}
-
-// explainReplication: NARROW classifiers for failures of the replication
-// arithmetic, items (iii)/(iv) only. Returns the finding keys that together
-// explain ALL violations, or nil.
-//   - c05-shared-device-double-count: a device holding a copy is visible
-//     through >= 2 surviving mounts and the very same trash list satisfies
-//     (iii) and (iv) when every view is counted as a replica of its own.
-//   - c05-other-server-copy-stands-in-for-class: only (iv) fails; in every
-//     failing class c each trashed class-c copy shares a server with another
-//     class-c mount that is in use (kept copy or pull target), and kept copies
-//     outside c on servers without a class-c mount in use make up the number.
-//   - both together, when neither alone suffices.
-func (w *c05World) explainReplication(b *c05Block, out *c05Out, viols []c05Viol, f *c05Facts) (keys []string, why string) {
-	onlyIV := true
+// explainedByStandIn: see the comment block above.
+func (w *c05World) explainedByStandIn(b *c05Block, out *c05Out, viols []c05Viol, f *c05Facts) (bool, string) {
 	for _, x := range viols {
-		if x.Item != "iii" && x.Item != "iv" {
-			return nil, ""
-		}
 		if x.Item != "iv" {
-			onlyIV = false
-		}
-	}
-	shared := w.c05SharedCounted(b)
-	if len(shared) > 0 && w.relaxedOK(b, out, f, true, false) {
-		return []string{c05KnownDouble}, fmt.Sprintf("device(s) %v counted once per mount view", shared)
-	}
-	if onlyIV && w.relaxedOK(b, out, f, false, true) {
-		return []string{c05KnownStandIn}, "class copy trashed on a server where another mount of the class is in use; copies outside the class on other servers counted instead"
-	}
-	if len(shared) > 0 && w.relaxedOK(b, out, f, true, true) {
-		return []string{c05KnownDouble, c05KnownStandIn}, fmt.Sprintf("device(s) %v counted once per mount view, and copies outside the class on other servers counted instead of a same-server class copy", shared)
-	}
-	return nil, ""
-}
-
-const (
-	c05KnownDouble     = "c05-shared-device-double-count"
-	c05KnownStandIn    = "c05-other-server-copy-stands-in-for-class"
-	c05KnownNoWritable = "c05-lost-unreported-without-writable-mount"
-	c05KnownNoClass    = "c05-desired-class-without-mounts-ignored"
-)
-
-// explainedByNoWritableMount: NARROW classifier for the finding
-// c05-lost-unreported-without-writable-mount. It matches iff the only failed
-// item is "(vi) referenced, no replica, not reported lost" and the layout has
-// no writable mount at all (every mount is read-only itself or sits on a
-// read-only service, or there are no mounts).
-func (w *c05World) explainedByNoWritableMount(viols []c05Viol) (bool, string) {
-	for _, x := range viols {
-		if x.Code != "not-lost" {
 			return false, ""
 		}
 	}
-	for _, mi := range w.minfo {
-		if !mi.ro {
-			return false, ""
-		}
-	}
-	return true, fmt.Sprintf("no writable mount among %d mount(s)", len(w.minfo))
-}
-
-// classesWithoutMounts: classes with desired > 0 that no mount of the layout
-// offers.
-func (w *c05World) classesWithoutMounts(b *c05Block) map[string]bool {
-	out := map[string]bool{}
-	for c, n := range c05Desired(b) {
-		if n <= 0 {
+	var failing []string
+	for _, c := range f.classes {
+		need := c05Min(f.desired[c], f.before[c])
+		if f.after[c] >= need {
 			continue
 		}
-		offered := false
-		for _, mi := range w.minfo {
-			if mi.classes[c] {
-				offered = true
-			}
+		failing = append(failing, c)
+		if !w.sameServerClassMountInUse(b, out, c, f.trashedDev) {
+			return false, ""
 		}
-		if !offered {
-			out[c] = true
+		if f.after[c]+w.standInRepl(b, out, c, f.trashedDev) < need {
+			return false, ""
 		}
 	}
-	return out
+	if len(failing) == 0 {
+		return false, ""
+	}
+	return true, fmt.Sprintf("class(es) %v: class copy trashed on a server where another mount of the class is in use; copies outside the class on other servers counted instead", failing)
 }
